@@ -351,6 +351,36 @@ def f_readlink(p, *a, **k):
     raise OSError(22, "Invalid argument (vfs: not a symlink)", vp)
 
 
+def f_rmtree(p, ignore_errors=False, onerror=None, **kw):
+    vp = virt(p)
+    if vp is None or V is None:
+        return REAL["rmtree"](p, ignore_errors, onerror, **kw)
+    if not V.is_dir(vp):
+        if ignore_errors:
+            return None
+        raise NotADirectoryError(20, "Not a directory (vfs)", vp)
+    pre = vp.rstrip("/") + "/"
+    for f in [f for f in list(V.files) + list(V.links) if f.startswith(pre)]:
+        if V.tick("remove", f):
+            V.files.pop(f, None)
+            V.links.pop(f, None)
+    for d in [d for d in V.dirs if d == vp or d.startswith(pre)]:
+        V.dirs.discard(d)
+
+
+def f_rmdir(p, *a, **k):
+    vp = virt(p)
+    if vp is None or V is None:
+        return REAL["rmdir"](p, *a, **k)
+    if not V.is_dir(vp):
+        raise FileNotFoundError(2, "No such file or directory (vfs)", vp)
+    pre = vp.rstrip("/") + "/"
+    if any(f.startswith(pre) for f in list(V.files) + list(V.links)):
+        raise OSError(39, "Directory not empty (vfs)", vp)
+    if V.tick("rmdir", vp):
+        V.dirs.discard(vp)
+
+
 def f_fsync(fd):
     if isinstance(fd, int):
         return REAL["fsync"](fd)
@@ -369,7 +399,7 @@ def install(world):
     REAL.update(stat=os.stat, open=builtins.open, ioopen=io.open, listdir=os.listdir, remove=os.remove,
                 unlink=os.unlink, utime=os.utime, touch=pathlib.Path.touch, mkdir=os.mkdir,
                 makedirs=os.makedirs, replace=os.replace, rename=os.rename, fsync=os.fsync,
-                scandir=os.scandir, lstat=os.lstat, readlink=os.readlink)
+                scandir=os.scandir, lstat=os.lstat, readlink=os.readlink, rmtree=__import__('shutil').rmtree, rmdir=os.rmdir)
     os.stat = f_stat
     builtins.open = f_open
     io.open = f_open
@@ -385,6 +415,8 @@ def install(world):
     os.scandir = f_scandir
     os.lstat = f_lstat
     os.readlink = f_readlink
+    os.rmdir = f_rmdir
+    __import__('shutil').rmtree = f_rmtree
     _INSTALLED[0] = True
 
 
@@ -408,4 +440,6 @@ def uninstall():
     os.scandir = REAL["scandir"]
     os.lstat = REAL["lstat"]
     os.readlink = REAL["readlink"]
+    os.rmdir = REAL["rmdir"]
+    __import__('shutil').rmtree = REAL["rmtree"]
     _INSTALLED[0] = False
